@@ -10,7 +10,10 @@ MCFieldPool == {
   <<<<"VarIntPrefixedByteArray">>, <<1, 2, 3>>>>,
   <<PA("VarInt", <<"Short">>), <<Pos(<<7>>), Neg(<<2>>)>>>>,
   <<PA("Short", PA("VarInt", <<"String">>)), <<<<<<97>>, <<>>>>, <<>>>>>>,
-  <<PA("Integer", <<"Boolean">>), <<>>>> }
+  <<PA("Integer", <<"Boolean">>), <<>>>>,
+  \* context-dependent leaves, flat and nested (the context must reach the innermost element)
+  <<<<"Position", "L">>, <<-3, 70, 1200>>>>,
+  <<PA("VarInt", PA("Short", <<"Position", "L">>)), <<<<<<1, -2, 3>>, <<-33554432, 2047, 33554431>>>>, <<>>, <<<<0, 0, 0>>>>>>>> }
 MCLastPool == {<<<<"TrailingByteArray">>, <<9, 8, 7>>>>, <<<<"TrailingByteArray">>, <<>>>>}
 NoCases == <<>>
 NoPool == {}
